@@ -144,9 +144,12 @@ pub fn drive(seed: u64, outdir: &str, thorough: bool) {
     } else if use_scan {
       p.write(".verif-rule.yml", br#"{"id": "r", "language": "JavaScript", "severity": "error", "message": "m", "rule": {"pattern": "foo($A)"}}"#);
     }
-    let args: Vec<&str> = if mixed { vec!["scan", "--json=stream", "--inspect", "summary", "-j", &jn, "."] }
-      else if use_scan { vec!["scan", "-r", ".verif-rule.yml", "--json=stream", "--inspect", "summary", "-j", &jn, "."] }
-      else { vec!["run", "-p", "foo($A)", "-l", "js", "--json=stream", "--inspect", "summary", "-j", &jn, "."] };
+    // `--inspect entity` adds one trace line per file (written by the walker threads themselves, through a shared
+    // lock): it must not change what is found; the summary line is printed at both levels
+    let inspect = if idx % 3 == 0 { "summary" } else { "entity" };
+    let args: Vec<&str> = if mixed { vec!["scan", "--json=stream", "--inspect", inspect, "-j", &jn, "."] }
+      else if use_scan { vec!["scan", "-r", ".verif-rule.yml", "--json=stream", "--inspect", inspect, "-j", &jn, "."] }
+      else { vec!["run", "-p", "foo($A)", "-l", "js", "--json=stream", "--inspect", inspect, "-j", &jn, "."] };
     // lonely trees alternate between perturbed and unperturbed schedules
     let env_all = [("AST_GREP_VERIF_TRACE", trace.as_str()), ("AST_GREP_VERIF_SCHED", sched_s.as_str())];
     let env = if lonely && rep % 2 == 0 { &env_all[..1] } else { &env_all[..] };
@@ -185,7 +188,7 @@ pub fn drive(seed: u64, outdir: &str, thorough: bool) {
       }
     }
     let (exp, faulty) = &expected[tree];
-    let config = json!({"ev": "config", "id": format!("tree{tree}-j{j}-r{rep}{}", if *slow { "-slowreader" } else { "" }), "threads_flag": j, "sched": sched, "front": if use_scan { "scan" } else { "run" },
+    let config = json!({"ev": "config", "id": format!("tree{tree}-j{j}-r{rep}{}", if *slow { "-slowreader" } else { "" }), "threads_flag": j, "sched": sched, "front": if use_scan { "scan" } else { "run" }, "inspect": inspect,
       // `scan` with an error-level rule exits 1 exactly when some file has a finding, whatever thread saw it
       "expect_exit": if use_scan && !exp.is_empty() { 1 } else { 0 },
       "files": outcome.keys().collect::<Vec<_>>(), "outcome": outcome.values().collect::<Vec<_>>(), "tids": tids,
